@@ -109,6 +109,10 @@ func (s *Set[T]) WithLock(mtx *sync.Mutex) {
 
 func (s *Set[T]) isOrdered() bool { return s.list != nil }
 
+// lockedIsOrdered is isOrdered for callers that do not hold this
+// set's lock (e.g. when s is the argument of another set's method).
+func (s *Set[T]) lockedIsOrdered() bool { defer s.with(s.lock()); return s.list != nil }
+
 func (s *Set[T]) init()            { s.hash = Map[T, *Element[T]]{} }
 func (*Set[T]) with(m *sync.Mutex) { ft.WhenCall(m != nil, m.Unlock) }
 func (s *Set[T]) lock() *sync.Mutex {
@@ -229,7 +233,7 @@ func (s *Set[T]) Producer() (out fun.Producer[T]) {
 func (s *Set[T]) Equal(other *Set[T]) bool {
 	defer s.with(s.lock())
 
-	if len(s.hash) != other.Len() || s.isOrdered() != other.isOrdered() {
+	if len(s.hash) != other.Len() || s.isOrdered() != other.lockedIsOrdered() {
 		return false
 	}
 
